@@ -142,6 +142,9 @@ var c20ValueNotes = []string{
 	"auth level strings are compared by meaning (auth.ParseAuthLevel): 'AUTH' and 'auth' are the same level",
 	"a present but entirely empty sub-structure is compared as absent; JSON null inside head/params maps is not generated",
 	"desc.seen is generated with 'when' set whenever it is present (both construction sites in topic.go set it)",
+	"text is generated with every control character 0x00-0x1f, DEL, U+0085, U+2028/2029, U+FEFF, the edges of the BMP and of the surrogate gap, characters outside the BMP (printable and not, up to U+10FFFF), quotes, backslashes and text that looks like an escape; values of type 'any' (content, public/private/trusted, head, params) also hold bytes that are not UTF-8 (spelled U+F8FF + two hex digits per byte inside a case): the JSON rendering, where encoding/json shows each such byte as U+FFFD, is the reference, and protobuf bytes that no JSON decoder accepts are a violation",
+	"plain string members are generated as valid UTF-8 only: a protobuf string member cannot carry anything else (proto.Marshal refuses the whole message with 'string field contains invalid UTF-8' while the JSON rendering shows U+FFFD), and both decoders the server reads requests with (encoding/json, protobuf) only ever produce valid UTF-8",
+	"protobuf-first cases also carry JSON texts no Go encoder produces (escaped surrogate pairs, lone surrogates, optional escapes, surrounding white space) in their bytes members",
 }
 
 var c20ExclCache = map[string]*c20Excl{}
@@ -260,7 +263,11 @@ func c20PbTree(m protoreflect.Message) map[string]any {
 			mm := map[string]any{}
 			v.Map().Range(func(k protoreflect.MapKey, e protoreflect.Value) bool {
 				if s, ok := c20CanonJSONBytes(e.Bytes()); ok {
-					mm[k.String()] = json.RawMessage(s)
+					if strings.HasPrefix(s, "!notjson:") {
+						mm[k.String()] = s // keep the tree printable
+					} else {
+						mm[k.String()] = json.RawMessage(s)
+					}
 				}
 				return true
 			})
